@@ -117,15 +117,39 @@ struct pthr {
 	uint64_t polls, recheck_true;
 } pthr[MAX_THR];
 
+static int hold_request, cb_holding, hold_release;
+static uint64_t straggler_in_window, straggler_missed;
 static __thread int my_start_flag;
 static void poll_hook(int point, const void *ctx)
 {
 	(void) ctx;
+	if (point == URCU_VP_POLL_CB_ENTRY && VP_LOAD(hold_request)) {
+		uint64_t t0 = vp_now_ns();
+		VP_STORE(cb_holding, 1);
+		while (!VP_LOAD(hold_release) && vp_now_ns() - t0 < 100000000ULL)
+			__asm__ __volatile__("pause");
+		VP_STORE(hold_request, 0);
+		VP_STORE(hold_release, 0);
+		VP_STORE(cb_holding, 0);
+		return;
+	}
 	if (point == URCU_VP_POLL_START_ACTIVE)
 		my_start_flag = 1;
 	else if (point == URCU_VP_POLL_START_IDLE)
 		my_start_flag = 0;
 }
+
+/* Quiet points: every `quiet_every` handles all pollers stop taking new handles until every outstanding
+ * handle of every poller has been reported complete.  During that time nobody calls start_poll, so a
+ * worker that went idle although a target is outstanding (lost re-queue) is not restarted by accident:
+ * the handles never complete and the stuck-state detector sees worker inactive with an outstanding target. */
+static long quiet_every;
+static int quiet_arrived, quiet_gen, quiet_entered;
+static uint64_t quiet_points;
+/* The last poller to reach a quiet point is the straggler: it asks the worker callback to pause at its
+ * entry (hook POLL_CB_ENTRY, i.e. after the grace period, before it takes the lock), issues its final
+ * start_poll exactly while the callback sits there, releases it and goes quiet like everybody else.
+ * That handle depends on the callback noticing, under the lock, that a newer target exists. */
 
 static void *poller_main(void *arg)
 {
@@ -138,8 +162,73 @@ static void *poller_main(void *arg)
 	struct urcu_gp_poll_state old_done[16];
 	int n_old = 0;
 	long started = 0;
+	int in_quiet = 0, my_gen = 0, straggler_pending = 0;
+	long next_quiet = quiet_every;
 	while ((started < handles_per_poller || nheld > 0) && !vp_nviolations()) {
-		if (started < handles_per_poller && nheld < NHELD && (nheld == 0 || vp_rand_n(&t->rng, 3))) {
+		if (quiet_every > 0 && !in_quiet && started >= next_quiet && next_quiet < handles_per_poller) {
+			in_quiet = 1;
+			my_gen = VP_LOAD(quiet_gen);
+			if (__atomic_add_fetch(&quiet_entered, 1, __ATOMIC_SEQ_CST) == n_pollers) {
+				__atomic_store_n(&quiet_entered, 0, __ATOMIC_SEQ_CST);
+				straggler_pending = 1;
+			}
+		}
+		if (straggler_pending && in_quiet == 1) {
+			if (nheld + 2 <= NHELD) {
+				/* straggler: everybody else has stopped taking handles */
+				straggler_pending = 0;
+				VP_STORE(hold_release, 0);
+				VP_STORE(hold_request, 1);
+				for (int phase = 0; phase < 2; phase++) {
+					if (phase == 1) {
+						uint64_t t0 = vp_now_ns();
+						while (!VP_LOAD(cb_holding) && vp_now_ns() - t0 < 300000000ULL) {
+							vp_rcu_offline();
+							usleep(20);
+							vp_rcu_online();
+						}
+						if (!VP_LOAD(cb_holding)) {
+							straggler_missed++;
+							VP_STORE(hold_request, 0);
+							break;
+						}
+						straggler_in_window++;
+					}
+					/* phase 0: make sure a callback is on its way; phase 1: the final start_poll, in the window */
+					struct obj *n = obj_new();
+					struct obj *old = rcu_xchg_pointer(&slots[vp_rand_n(&t->rng, NSLOTS)], n);
+					struct held *h = &held[nheld++];
+					h->o = old;
+					h->rec = &t->recs[t->nrec++];
+					h->done = 0;
+					my_start_flag = -1;
+					h->rec->c = ts_before();
+					h->h = start_poll_synchronize_rcu();
+					h->rec->was_active = (uint8_t) my_start_flag;
+					/* not counted in `started`: every poller must reach the same milestones */
+				}
+				VP_STORE(hold_release, 1);
+			}
+		}
+		if (in_quiet && nheld == 0) {
+			/* all my handles completed: wait for the other pollers (they are draining too) */
+			if (in_quiet == 1) {
+				in_quiet = 2;
+				if (__atomic_add_fetch(&quiet_arrived, 1, __ATOMIC_SEQ_CST) == n_pollers) {
+					__atomic_store_n(&quiet_arrived, 0, __ATOMIC_SEQ_CST);
+					quiet_points++;
+					__atomic_store_n(&quiet_gen, my_gen + 1, __ATOMIC_SEQ_CST);
+				}
+			}
+			if (VP_LOAD(quiet_gen) == my_gen) {
+				usleep(50);
+				vp_rcu_qs();
+				continue;
+			}
+			in_quiet = 0;
+			next_quiet += quiet_every;
+		}
+		if (!in_quiet && started < handles_per_poller && nheld < NHELD && (nheld == 0 || vp_rand_n(&t->rng, 3))) {
 			/* unpublish an object, take a handle */
 			struct obj *n = obj_new();
 			struct obj *old = rcu_xchg_pointer(&slots[vp_rand_n(&t->rng, NSLOTS)], n);
@@ -238,6 +327,7 @@ int main(int argc, char **argv)
 	n_readers = (int) vp_arg_long("readers", 2);
 	traffic = (int) vp_arg_long("traffic", 1);
 	handles_per_poller = vp_arg_long("handles", 2000);
+	quiet_every = vp_arg_long("quiet-every", 40);
 	const char *preset = vp_arg("preset", "none");
 	double hookp = vp_arg_double("hook-prob", 0.3);
 	if (n_pollers > MAX_THR || n_readers > 16)
@@ -269,7 +359,7 @@ int main(int argc, char **argv)
 	for (int i = 0; i < n_pollers; i++) {
 		pthr[i].idx = i;
 		vp_rng_init(&pthr[i].rng, vp_opt.seed, 0x9011, (uint64_t) i);
-		pthr[i].cap = (size_t) handles_per_poller + 1;
+		pthr[i].cap = (size_t) handles_per_poller + 8 + 2 * (size_t) (quiet_every > 0 ? handles_per_poller / quiet_every + 1 : 0);
 		pthr[i].recs = calloc(pthr[i].cap, sizeof(struct hrec));
 		pthread_create(&pthr[i].tid, NULL, poller_main, &pthr[i]);
 	}
@@ -338,6 +428,9 @@ int main(int argc, char **argv)
 	vp_counter_add("nontrivial", nontriv);
 	vp_counter_add("polls", polls);
 	vp_counter_add("true_rechecks", rechecks);
+	vp_counter_add("quiet_points_all_handles_completed_without_new_start_poll", quiet_points);
+	vp_counter_add("final_start_poll_while_worker_callback_between_gp_and_lock", straggler_in_window);
+	vp_counter_add("straggler_window_missed", straggler_missed);
 	vp_counter_add("traffic_callbacks", __atomic_load_n(&traffic_cbs, __ATOMIC_RELAXED));
 #if !(VP_ASAN || VP_TSAN)
 	vp_quar_drain(&quar);
